@@ -64,14 +64,32 @@ static void rect_case(const Pattern &pa, const std::vector<int> &rows, const std
     Vec gg, gr, tg, tr, pg, pr; for (int i=0;i<n;++i) for (int j=0;j<m;++j) { gg.push_back(Gd[i][j]); gr.push_back(Ad[i][j]); tg.push_back(Td[j][i]); tr.push_back(Ad[i][j]); } for (int i=0;i<m;++i) for (int j=0;j<m;++j) { scalar s=0; for (int k=0;k<n;++k) s+=Ad[k][i]*Ad[k][j]; pg.push_back(Pd[i][j]); pr.push_back(s); }
     hx::prove_eq_vec("rectangular: local + remote parts assemble to the global matrix", gg, gr); hx::prove_eq_vec("rectangular: distributed mul = serial product", y_out, yr); hx::prove_eq_vec("rectangular: distributed transpose = serial transpose", tg, tr); hx::prove_eq_vec("rectangular: distributed product A^T A = serial product", pg, pr); }); }
 
+// Gershgorin spectral-radius estimate (power_iters = 0): identical on all ranks and equal to the serial value max_i sum_j |a_ij| (scaled: / |a_ii|);
+// power method (power_iters > 0): identical on all ranks.  Concrete dyadic matrices (|.| and max would fork on every symbolic entry), rows of different weight.
+static void radius_case(const Pattern &pa, const std::vector<int> &rows, int R, hx::Rng &rng) { hx::run_case("spectral_radius/R"+std::to_string(R)+"/rows"+pname(rows)+"/"+pa.name, [&]() {
+    if (pa.n!=pa.m) return; int n=pa.n; hx::Rng r2(rng.s); SCrs A=hx::ddmatrix(pa,r2); for (int i=0;i<n;++i) for (ptrdiff_t k=A.ptr[i];k<A.ptr[i+1];++k) A.val[k]=A.val[k]*scalar(1+((i*5+2)%7))/scalar(4);
+    std::vector<int> beg(R+1,0); for (int r=0;r<R;++r) beg[r+1]=beg[r]+rows[r];
+    Vec g0(R), g1(R), p0(R), p1(R);
+#ifdef HX_SYM
+    symmpi::symx_reduce()=[](int op, void *acc, const void *in) { scalar a, b; memcpy(&a,acc,8); memcpy(&b,in,8); if (op==MPI_SUM) a=a+b; else if (op==MPI_PROD) a=a*b; else if (op==MPI_MAX) a = a<b ? b : a; else if (op==MPI_MIN) a = b<a ? b : a; else throw std::runtime_error("symmpi: unsupported reduction on symbolic scalars"); memcpy(acc,&a,8); };
+#endif
+    symmpi::run(R,[&](int rank) { amgcl::mpi::communicator comm(MPI_COMM_WORLD); int rb=beg[rank], re=beg[rank+1], nl=re-rb; auto loc=strip(A,rb,re); DM D(comm,*loc,nl); D.move_to_backend(BE::params(),true);
+        g0[rank]=be::spectral_radius<false>(D,0); g1[rank]=be::spectral_radius<true>(D,0); p0[rank]=be::spectral_radius<false>(D,2); p1[rank]=be::spectral_radius<true>(D,2); });
+    auto Ad=A.dense(); scalar s0=0, s1=0; for (int i=0;i<n;++i) { scalar t=0; for (int j=0;j<n;++j) t+=abs(Ad[i][j]); scalar u=t/abs(Ad[i][i]); if (s0<t) s0=t; if (s1<u) s1=u; }
+    Vec a, b; for (int r=0;r<R;++r) { a.push_back(g0[r]); b.push_back(s0); a.push_back(g1[r]); b.push_back(s1); }
+    hx::prove_eq_vec("Gershgorin spectral-radius estimate (plain, scaled) on every rank = serial value of the assembled matrix", a, b);
+    Vec c, d; for (int r=1;r<R;++r) { c.push_back(p0[r]); d.push_back(p0[0]); c.push_back(p1[r]); d.push_back(p1[0]); }
+    hx::prove_eq_vec("power-method spectral-radius estimate is identical on all ranks", c, d); }); }
+
 int main(int argc, char **argv) {
     hx::parse_args(argc,argv); bool T=hx::thorough(); hx::Rng rng(hx::args().seed);
-    hx::encodes("mpi::distributed_matrix<builtin<scalar>> (constructor from a strip with global columns, comm_pattern, move_to_backend, mul, residual), mpi::inner_product, communicator::reduce / exclusive_sum, mpi::transpose, mpi::product (incl. remote_rows), mpi::scale, mpi::sort_rows");
+    hx::encodes("mpi::distributed_matrix<builtin<scalar>> (constructor from a strip with global columns, comm_pattern, move_to_backend, mul, residual), mpi::inner_product, communicator::reduce / exclusive_sum, mpi::transpose, mpi::product (incl. remote_rows), mpi::scale, mpi::sort_rows, backend::spectral_radius<scale>(distributed_matrix, power_iters)");
     hx::assume_note("MPI is an in-process stand-in (lib/symmpi/mpi.h): ranks are threads under a global baton (no concurrency in the term store), point-to-point messages are buffered and matched FIFO per (source, destination, tag), collectives are rendezvous that reduce in rank order; amgcl uses no wildcard receives, so under this contract results cannot depend on arrival order");
     hx::assume_note("all matrix values, vectors and coefficients symbolic; row partitions = all compositions of n into R parts (empty ranks included); rows and columns are partitioned alike (square matrices)");
-    hx::assume_note("NOT covered: the Gershgorin / power-method spectral radius, real MPI runtimes, more than 4 ranks");
+    hx::assume_note("NOT covered: real MPI runtimes, more than 4 ranks; the spectral-radius estimates are decided on concrete dyadic matrices (absolute values and maxima would fork on every symbolic entry)");
     std::vector<Pattern> ps{hx::band_pattern(3,1),hx::dense_pattern(3,3),hx::mask_pattern(3,3,0x0a6,false),hx::band_pattern(4,1),hx::mask_pattern(4,4,0x9a5c,true)}; for (int k=0;k<(T?12:3);++k) ps.push_back(hx::mask_pattern(4,4,rng.next()&0xffff,false));
     for (auto &p : ps) for (int R=1;R<=(T?4:3);++R) { std::vector<std::vector<int>> parts; compositions(p.n,R,{},parts); for (auto &pt : parts) if (T || p.n<=3 || rng.below(3)==0 || R==1) algebra_case(p,pt,R); }
     for (auto &p : std::vector<Pattern>{hx::dense_pattern(3,2),hx::mask_pattern(3,2,0x2d,false),hx::mask_pattern(2,3,0x1e,false),hx::random_pattern(4,3,rng,2,false)}) for (int R=2;R<=3;++R) { std::vector<std::vector<int>> rp, cp; compositions(p.n,R,{},rp); compositions(p.m,R,{},cp); size_t k=0; for (auto &a : rp) for (auto &b : cp) { ++k; if (T || p.n*p.m<=6 && (R==2 || k%3==0) || k%7==0) rect_case(p,a,b,R); } }
+    for (auto &p : std::vector<Pattern>{hx::band_pattern(4,1),hx::dense_pattern(3,3),hx::grid_pattern(3,2)}) for (int R=1;R<=(T?4:3);++R) { std::vector<std::vector<int>> parts; compositions(p.n,R,{},parts); size_t k=0; for (auto &pt : parts) { ++k; if (T || p.n<=4 || k%3==0) radius_case(p,pt,R,rng); } }
     return hx::finish();
 }
